@@ -214,7 +214,7 @@ func qdAtoms(rng *rand.Rand) qdAtom {
 		f := float64(*r.Age)
 		return &f
 	}
-	switch rng.Intn(22) {
+	switch rng.Intn(23) {
 	case 0: // string comparison
 		f, get := strField()
 		op, lit := cmpOps[rng.Intn(6)], strLits[rng.Intn(len(strLits))]
@@ -423,6 +423,27 @@ func qdAtoms(rng *rand.Rand) qdAtom {
 		op := cmpOps[rng.Intn(6)]
 		n := int64(rng.Intn(3))
 		return qdAtom{fmt.Sprintf("count(%s) %s %d", sub, op, n), func(r *qdRow) bool { c := matches(r); return qdCmp(op, c < n, c == n) }}
+	case 22: // the index-seek shortcut: anyOf(set) = literal is answered by seeking the set's cursor to the literal
+		if rng.Intn(3) == 0 {
+			lit := []string{"pl1", "pl2", "pl3", "pl", "pl10", ""}[rng.Intn(6)]
+			return qdAtom{fmt.Sprintf("anyOf(places) = %s", qdQ(lit)), func(r *qdRow) bool {
+				for _, t := range r.Places {
+					if t == lit {
+						return true
+					}
+				}
+				return false
+			}}
+		}
+		lit := []string{"x", "y", "xy", "a", "A", "ab", "z", "", "b", "xyz", "B"}[rng.Intn(11)]
+		return qdAtom{fmt.Sprintf("anyOf(tags) = %s", qdQ(lit)), func(r *qdRow) bool {
+			for _, t := range r.Tags {
+				if t == lit {
+					return true
+				}
+			}
+			return false
+		}}
 	case 20: // map field entries (any-typed): string, integer and boolean values compared with a literal of their kind
 		switch rng.Intn(3) {
 		case 0:
